@@ -83,6 +83,17 @@ def write_ast(rng, phi, period_ns, default, halfstep=None):
 def main():
     rep = core.Report("C08")
     quick = core.tier() == "quick"
+    # theorems of Units.tla on a finite domain: unit-independence of a duration, period notation, unit resolution
+    import tlc, shutil
+    wd = tlc.workdir("C08_units")
+    for f_ in ("UnitsMC.tla", "UnitsMC.cfg"):
+        shutil.copy(os.path.join(tlc.SPEC, f_), wd)
+    r = tlc.run(wd, "UnitsMC", workers=1, timeout=600)
+    tlc.ok_or_machinery(r, "UnitsMC")
+    rep.add_mc("UnitsMC: UnitsThm, PeriodThm, ResolveThm (one state, quantified over durations x periods x units)", r)
+    if r["violated"]:
+        rep.mc_violation("UnitsMC", r)
+    shutil.rmtree(wd, ignore_errors=True)
     rng = random.Random(core.seed() * 7919 + 8)
     n = 600 if quick else 12000
     cases = []
